@@ -1227,7 +1227,7 @@ class VectorQuantize(Module):
 
                 if self.orthogonal_reg_active_codes_only:
                     assert not (is_multiheaded and self.separate_codebook_per_head), 'orthogonal regularization for only active codes not compatible with multi-headed with separate codebooks yet'
-                    unique_code_ids = torch.unique(embed_ind)
+                    unique_code_ids = torch.unique(embed_ind[mask] if exists(mask) else embed_ind)
                     codebook = codebook[:, unique_code_ids]
 
                 num_codes = codebook.shape[-2]
